@@ -340,6 +340,15 @@ func genC01parse(o *Out, r *Rng, thorough bool) {
 	}
 	for i := 0; i < n; i++ {
 		b := randBundle(r, i%50 == 0) // every 50th bundle may carry a 64 KiB payload (the model's bit-serial CRC makes those slow)
+		if i%3 == 1 {
+			// extension blocks in arbitrary (non-ascending) order on the wire, payload last: what another
+			// implementation may send; the parser must hand back exactly this order
+			n := len(b.CanonicalBlocks) - 1
+			for k := n - 1; k > 0; k-- {
+				j := r.Intn(k + 1)
+				b.CanonicalBlocks[k], b.CanonicalBlocks[j] = b.CanonicalBlocks[j], b.CanonicalBlocks[k]
+			}
+		}
 		bs, err := encodeBundle(&b)
 		if err != nil {
 			o.Case("encfail", dumpBundle(&b))
